@@ -44,6 +44,7 @@ import XotModel.Props.C01
 import XotModel.Lemmas.FfixedRepresentable
 import XotModel.Lemmas.FparseRoute
 import XotModel.Model.FparseRouteSpec
+import XotModel.Lemmas.Fprog2Conv
 
 namespace XotModel.Props
 open XotModel
@@ -600,5 +601,283 @@ example : ∃ t : HTree,
   refine ⟨t, ?_, hh, h2⟩
   rw [h1, hh]
   rfl
+
+end XotModel.Props
+
+/-! # ================================================================================================
+    # EXTENDED CONSTRUCTION PROGRAMS: every kind of step (branch wt-prog20)
+    # ================================================================================================
+
+  A realistic construction order also MOVES things.  `Model/FanyorderSpec2.lean` (`Prog2`) extends the
+  programs of `Model/FanyorderSpec.lean` (embedded as `Prog2.Step.base`) by `detach`, `remove` (helper
+  nodes), `replace` (a placeholder by the real node), `wrap` (`element_wrap`), `unwrap` (`element_unwrap`
+  of a helper wrapper), the value setters `setText`, `setElementName`, `setAttributeValue`, `setComment`,
+  `setPiData`, and `clone` (`clone_node` of a template); nodes are named by the index of the step that
+  CREATED them (`create`, `wrap`, `clone`).  Two interpreters: `Prog2.runImpl` (the calls as xot performs
+  them, `Model/Manip.lean` / `Manip2.lean` / `Fcreation.lean`) and `Prog2.runSpec` — the ordered-tree
+  SPECIFICATION C05 proves each call against: `specDetachP`, `specRemoveP`, `specReplaceP`, `specUnwrapP`
+  (the pair reading of "text nodes that become adjacent are merged", `Model/FspecSpec3.lean` /
+  `FspecSpec4.lean`), `specWrap`, `specSetValue`, `specClone`; whether a step makes sense is decided on the
+  ordered tree (`Prog2.replaceOk`, `wrapOk`, `unwrapOk`, the kind of the node for a setter, liveness for
+  `detach` / `remove` / `clone`).
+
+  Hypotheses, as for the eight-step programs: the C04 invariant `Forest.Inv` of the START store and
+  `Prog.FlagsOk` (text consolidation never switched off, or off — the store then never holds adjacent text
+  nodes while consolidation is on, which is where C05's pair reading, its whole-run reading and xot agree;
+  `replace`: outside that scope lies the corner of finding `C05:replace-selfmerge-leaves-adjacent-text`).
+  Nothing is assumed about the intermediate stores: the SPECIFICATION preserves `Forest.Inv`
+  (`C20_program_spec_preserves_inv`; per call `Lemmas/Fprog2Inv1.lean` … `Fprog2Inv4.lean`, proved on the
+  ordered-tree side), and after the ordered-tree test of a step nothing goes wrong in the implementation
+  (`Lemmas/Fprog2Ok.lean`, `Fprog2OkWrap.lean`: `element_unwrap`, `element_wrap`, `replace` answer `ok`).
+  Per call the C05 theorems are used by name (`Lemmas/Fprog2Ref.lean`). -/
+
+namespace XotModel.Props
+open XotModel
+
+/-- **Refinement along a whole extended program**: a program the ordered-tree specification accepts is
+    carried out by the implementation without a refusal, and the implementation's final state IS the
+    specification's: same trees, same node names (handles), same created nodes. -/
+theorem C20_program_refines (s s' : Prog.State) (P : Prog2.Program) (inv : s.forest.Inv)
+    (hfl : Prog.FlagsOk s.forest) (h : Prog2.runSpec s P = some s') : Prog2.runImpl s P = (s', .ok) :=
+  Prog2.run_spec_impl P s s' inv hfl h
+
+/-- The specification preserves the C04 invariant and the flag condition, step by step. -/
+theorem C20_program_spec_preserves_inv (s s' : Prog.State) (P : Prog2.Program) (inv : s.forest.Inv)
+    (hfl : Prog.FlagsOk s.forest) (h : Prog2.runSpec s P = some s') :
+    s'.forest.Inv ∧ Prog.FlagsOk s'.forest :=
+  Prog2.runSpec_inv P s s' inv hfl h
+
+/-- One call: what the specification accepts the implementation answers `ok`, with the specification's
+    store and created node (per kind of call: the C05 theorem of that call). -/
+theorem C20_program_call (f f' : Forest) (c : Prog2.Call) (o : Option Nat) (inv : f.Inv) (hfl : Prog.FlagsOk f)
+    (h : c.spec f = some (f', o)) : c.impl f = (f', .ok, o) ∧ f'.Inv ∧ Prog.FlagsOk f' := by
+  obtain ⟨i, a, b⟩ := Prog2.spec_inv inv hfl h
+  exact ⟨Prog2.call_spec_impl inv hfl c h, i, hfl.of_eq a b⟩
+
+/-- **C20_any_program**: every extended program that ends in the abstract document `d` according to the
+    SPECIFICATION semantics (`Prog2.Constructs`: every step well-formed; at the end the node created by the
+    `root`-th creating step carries `treeOf d`), run on the forest model, is answered `ok` at every step
+    and ends in a store that satisfies the invariant and in which that node is the root of a subtree
+    erasing to `treeOf d`. -/
+theorem C20_any_program (f : Forest) (P : Prog2.Program) (root : Nat) (d : FDocument)
+    (hc : Prog2.Constructs f P root d) (inv : f.Inv) (hfl : Prog.FlagsOk f) :
+    (Prog2.runImpl { forest := f } P).2 = .ok ∧ (Prog2.runImpl { forest := f } P).1.forest.Inv ∧
+    ∃ h t, (Prog2.runImpl { forest := f } P).1.env[root]? = some h ∧
+      (Prog2.runImpl { forest := f } P).1.forest.get? h = some t ∧ t.erase = treeOf d ∧
+      (Prog2.runImpl { forest := f } P).1.forest.treeAt h = some (treeOf d) := by
+  obtain ⟨s', hs, h, he, ht⟩ := hc
+  rw [Prog2.run_spec_impl P _ s' inv hfl hs]
+  refine ⟨rfl, (Prog2.runSpec_inv P _ s' inv hfl hs).1, h, ?_⟩
+  have ht' := ht
+  unfold Forest.treeAt at ht'
+  cases hg : s'.forest.get? h with
+  | none => rw [hg] at ht'; cases ht'
+  | some t =>
+    rw [hg] at ht'
+    exact ⟨t, he, rfl, Option.some.inj ht', ht⟩
+
+/-- **C20_programs_agree**: two extended programs that end in the same abstract document — whatever was
+    detached and re-attached, wrapped and unwrapped, replaced, set late or cloned on the way — are both
+    carried out, and the two document nodes carry the same tree: `deep_equal`, the same declarations, and
+    (any observation `obs` of the erased tree, e.g. the serialiser) the same serialisation. -/
+theorem C20_programs_agree {α : Type} (obs : Tree → α) (f : Forest) (P1 P2 : Prog2.Program) (r1 r2 : Nat)
+    (d : FDocument) (h1 : Prog2.Constructs f P1 r1 d) (h2 : Prog2.Constructs f P2 r2 d)
+    (inv : f.Inv) (hfl : Prog.FlagsOk f) :
+    (Prog2.runImpl { forest := f } P1).2 = .ok ∧ (Prog2.runImpl { forest := f } P2).2 = .ok ∧
+    ∃ a b, (Prog2.runImpl { forest := f } P1).1.env[r1]? = some a ∧
+      (Prog2.runImpl { forest := f } P2).1.env[r2]? = some b ∧
+      (Prog2.runImpl { forest := f } P1).1.forest.treeAt a = some (treeOf d) ∧
+      (Prog2.runImpl { forest := f } P2).1.forest.treeAt b =
+        (Prog2.runImpl { forest := f } P1).1.forest.treeAt a ∧
+      ((Prog2.runImpl { forest := f } P1).1.forest.treeAt a).map obs =
+        ((Prog2.runImpl { forest := f } P2).1.forest.treeAt b).map obs := by
+  obtain ⟨o1, _, a, _, ea, _, _, ta⟩ := C20_any_program f P1 r1 d h1 inv hfl
+  obtain ⟨o2, _, b, _, eb, _, _, tb⟩ := C20_any_program f P2 r2 d h2 inv hfl
+  exact ⟨o1, o2, a, b, ea, eb, ta, by rw [tb, ta], by rw [ta, tb]⟩
+
+/-- … and agrees with `fixed::Document::xotify` (`C20_fixed`; likewise with every `RouteOk` route). -/
+theorem C20_program_fixed_route (route : Forest → FDocument → Option (Forest × Nat)) (f : Forest)
+    (P : Prog2.Program) (root : Nat) (d : FDocument) (hc : Prog2.Constructs f P root d) (inv : f.Inv)
+    (hfl : Prog.FlagsOk f) (hr : RouteOk route f d) :
+    ∃ fa ra h, route f d = some (fa, ra) ∧ (Prog2.runImpl { forest := f } P).2 = .ok ∧
+      (Prog2.runImpl { forest := f } P).1.env[root]? = some h ∧
+      (Prog2.runImpl { forest := f } P).1.forest.treeAt h = fa.treeAt ra ∧
+      fa.treeAt ra = some (treeOf d) := by
+  obtain ⟨t, hx, _, ht, _⟩ := hr
+  obtain ⟨o1, _, h, _, eh, _, _, th⟩ := C20_any_program f P root d hc inv hfl
+  exact ⟨_, _, h, hx, o1, eh, by rw [th, ht], ht⟩
+
+theorem C20_program_fixed (f : Forest) (P : Prog2.Program) (root : Nat) (d : FDocument)
+    (hc : Prog2.Constructs f P root d) (inv : f.Inv) (hfl : Prog.FlagsOk f) (hwf : FWellFormed f d) :
+    ∃ fa ra h, f.xotifyDocument d = some (fa, ra) ∧ (Prog2.runImpl { forest := f } P).2 = .ok ∧
+      (Prog2.runImpl { forest := f } P).1.env[root]? = some h ∧
+      (Prog2.runImpl { forest := f } P).1.forest.treeAt h = fa.treeAt ra ∧
+      fa.treeAt ra = some (treeOf d) :=
+  C20_program_fixed_route Forest.xotifyDocument f P root d hc inv hfl (C20_fixed f d (C20_good_of_inv f inv) hwf)
+
+/-- … and with the parse route (`C20_parse_route`): for a document in the C01 domain with text `s`, the
+    tree `T` the program leaves serialises to `s`, and parsing `s` gives a tree that IS `T` (same ids,
+    tables unchanged), hence `deep_equal` to it and serialising identically. -/
+theorem C20_program_parse_route (env : Env) (f : Forest) (P : Prog2.Program) (root : Nat) (d : FDocument)
+    (hc : Prog2.Constructs f P root d) (inv : f.Inv) (hfl : Prog.FlagsOk f)
+    (hr : Representable env (treeOf d) = true) (s : Str) (hs : toXmlString env (treeOf d) [] = .ok s) :
+    ∃ h T p, (Prog2.runImpl { forest := f } P).2 = .ok ∧
+      (Prog2.runImpl { forest := f } P).1.env[root]? = some h ∧
+      (Prog2.runImpl { forest := f } P).1.forest.treeAt h = some T ∧
+      toXmlString env T [] = .ok s ∧ parseString .document env s = .ok p ∧ p.tree = T ∧ p.env = env ∧
+      deepEqual p.tree T = true ∧ toXmlString p.env p.tree [] = .ok s := by
+  obtain ⟨o1, _, h, _, eh, _, _, th⟩ := C20_any_program f P root d hc inv hfl
+  obtain ⟨p, k1, k2, k3, k4⟩ := C20_parse_route env d hr s hs
+  exact ⟨h, treeOf d, p, o1, eh, th, hs, k1, k2, k3, k4, by rw [k2, k3]; exact hs⟩
+
+/-- **Conversely**: an extended program every step of which the implementation answers `ok` is well-formed
+    for the specification, with the same final state (then `C20_program_refines` / `C20_any_program`
+    apply).  `Prog2.inScope`: what `Prog.inScope` excludes, and `detach` / `remove` of a node that does not
+    exist any more (the model answers `ok` and changes nothing). -/
+theorem C20_any_program_conv (s : Prog.State) (P : Prog2.Program) (inv : s.forest.Inv)
+    (hfl : Prog.FlagsOk s.forest) (hsc : Prog2.inScope s P = true) (hok : (Prog2.runImpl s P).2 = .ok) :
+    Prog2.runSpec s P = some (Prog2.runImpl s P).1 :=
+  Prog2.run_impl_spec P s inv hfl hsc hok
+
+/-- **Refusals are exact** for extended programs: the first step the implementation does not answer `ok`
+    is the first step the specification calls ill-formed — the ordered-tree tests `Prog2.replaceOk`,
+    `wrapOk`, `unwrapOk` and the kind tests of the setters are exactly xot's argument checks, and after
+    them nothing goes wrong. -/
+theorem C20_program_refusal_exact (s : Prog.State) (P : Prog2.Program) (inv : s.forest.Inv)
+    (hfl : Prog.FlagsOk s.forest) (hsc : Prog2.inScope s P = true) :
+    Prog2.firstRefused s P = Prog2.firstIllFormed s P :=
+  Prog2.firstRefused_eq P s inv hfl hsc
+
+/-- The well-formedness tests of the composite calls against xot's outcome, one call at a time. -/
+theorem C20_program_checks (f : Forest) (inv : f.Inv) (hfl : Prog.FlagsOk f) :
+    (∀ a b, Prog2.replaceOk f a b = true ↔ (f.replace a b).2 = .ok) ∧
+    (∀ n name, Prog2.wrapOk f n = true ↔ (f.elementWrap n name).2.1 = .ok) ∧
+    (∀ n, Prog2.unwrapOk f n = true ↔ (f.elementUnwrap n).2 = .ok) :=
+  ⟨fun _ _ => ⟨Prog2.replace_ok inv (Prog.normal_of_flags inv hfl), Prog2.replaceOk_of_ok⟩,
+   fun _ name => ⟨Prog2.elementWrap_ok name inv (Prog.normal_of_flags inv hfl), Prog2.wrapOk_of_ok⟩,
+   fun _ => ⟨Prog2.elementUnwrap_ok inv, Prog2.unwrapOk_of_ok⟩⟩
+
+/-- The eight-step programs are the extended programs without a new step (the extension is
+    conservative): same run on the specification, same run on the implementation. -/
+theorem C20_program_base (s : Prog.State) (P : Prog.Program) :
+    Prog2.runSpec s (Prog2.ofBase P) = Prog.runSpec s P ∧ Prog2.runImpl s (Prog2.ofBase P) = Prog.runImpl s P := by
+  induction P generalizing s with
+  | nil => exact ⟨rfl, rfl⟩
+  | cons st rest ih =>
+    have e1 : Prog2.stepSpec s (.base st) = Prog.stepSpec s st := by
+      unfold Prog2.stepSpec Prog.stepSpec
+      simp only [Prog2.Step.resolve]
+      cases st.resolve s.env <;> rfl
+    have e2 : Prog2.stepImpl s (.base st) = Prog.stepImpl s st := by
+      unfold Prog2.stepImpl Prog.stepImpl
+      simp only [Prog2.Step.resolve]
+      cases st.resolve s.env <;> rfl
+    constructor
+    · simp only [Prog2.ofBase, List.map_cons, Prog2.runSpec, Prog.runSpec, e1]
+      cases Prog.stepSpec s st with
+      | none => rfl
+      | some s1 => exact (ih s1).1
+    · simp only [Prog2.ofBase, List.map_cons, Prog2.runImpl, Prog.runImpl, e2]
+      cases h : Prog.stepImpl s st with
+      | mk s1 r =>
+        cases r with
+        | ok => exact (ih s1).2
+        | err e => rfl
+        | panic => rfl
+
+theorem C20_program_base_constructs (f : Forest) (P : Prog.Program) (root : Nat) (d : FDocument)
+    (h : Prog.Constructs f P root d) : Prog2.Constructs f (Prog2.ofBase P) root d := by
+  obtain ⟨s', hs, x⟩ := h
+  exact ⟨s', by rw [(C20_program_base _ P).1]; exact hs, x⟩
+
+/-! ### Non-vacuity: `<!--l--><a c="v">x<b/>yz</a>` (`docC`) by a program that uses every new kind of step
+
+  `?` is wrapped in the element `a`; a placeholder comment `p` and a helper wrapper `W[yz]` are appended;
+  `W` is unwrapped; a template element is cloned, the copy renamed to `b` and put in the place of the
+  placeholder; the template is removed; the text is set to `x`; the attribute is set; the document node
+  is created last, the leading comment appended at the wrong place, detached and inserted before `a`. -/
+
+def progX : Prog2.Program :=
+  [.base (.create (.text ['?'])),          -- 0
+   .wrap 0 2,                              -- 1: <a>?</a>
+   .base (.create (.comment ['p'])),       -- 2
+   .base (.append 1 2),
+   .base (.create (.element 9)),           -- 3: helper wrapper
+   .base (.create (.text ['y', 'z'])),     -- 4
+   .base (.append 3 4),
+   .base (.append 1 3),                    -- <a>?<!--p--><W>yz</W></a>
+   .unwrap 3,                              -- <a>?<!--p-->yz</a>
+   .base (.create (.element 7)),           -- 5: template
+   .clone 5,                               -- 6
+   .setElementName 6 3,
+   .replace 2 6,                           -- <a>?<b/>yz</a>
+   .remove 5,
+   .setText 0 ['x'],
+   .base (.setAttribute 1 4 ['v']),
+   .base (.create (.comment ['?'])),       -- 7
+   .setComment 7 ['l'],
+   .base (.create .document),              -- 8
+   .base (.append 8 1),
+   .base (.append 8 7),                    -- at the wrong place
+   .detach 7,
+   .base (.insertBefore 1 7)]
+
+theorem C20_progX_constructs : Prog2.Constructs Forest.init progX 8 docC := by
+  have h : ∃ s', Prog2.runSpec { forest := Forest.init } progX = some s' := by
+    cases hs : Prog2.runSpec { forest := Forest.init } progX with
+    | some s' => exact ⟨s', rfl⟩
+    | none =>
+      have : (Prog2.runSpec { forest := Forest.init } progX).isSome = true := by decide +kernel
+      rw [hs] at this; cases this
+  obtain ⟨s', hs⟩ := h
+  have h2 : (Prog2.runSpec { forest := Forest.init } progX).map
+      (fun s' => (s'.env[8]?).bind s'.forest.treeAt) = some (some (treeOf docC)) := by decide +kernel
+  rw [hs] at h2
+  simp only [Option.map_some, Option.some.injEq] at h2
+  refine ⟨s', hs, ?_⟩
+  cases he : s'.env[8]? with
+  | none => rw [he] at h2; cases h2
+  | some h => rw [he] at h2; exact ⟨h, rfl, h2⟩
+
+/-- `C20_any_program` applied; nothing is left over but the document; and the eight-step program `progC`
+    (embedded) and `progX` agree. -/
+example : (Prog2.runImpl { forest := Forest.init } progX).2 = .ok ∧
+    ∃ h, (Prog2.runImpl { forest := Forest.init } progX).1.env[8]? = some h ∧
+      (Prog2.runImpl { forest := Forest.init } progX).1.forest.treeAt h = some (treeOf docC) := by
+  obtain ⟨a, _, h, _, b, _, _, c⟩ := C20_any_program Forest.init progX 8 docC C20_progX_constructs C20_init_inv.1 C20_init_inv.2
+  exact ⟨a, h, b, c⟩
+
+example : (Prog2.runImplF Forest.init progX).2 = .ok ∧
+    (Prog2.runImplF Forest.init progX).1.content = [treeOf docC] ∧
+    (Prog2.runSpecF Forest.init progX).map Forest.content = some [treeOf docC] := by
+  decide +kernel
+
+example : Prog2.inScope { forest := Forest.init } progX = true ∧
+    Prog2.firstRefused { forest := Forest.init } progX = none ∧
+    Prog2.firstRefused { forest := Forest.init } [.base (.create (.element 2)), .setText 0 ['x']] = some 1 ∧
+    Prog2.firstIllFormed { forest := Forest.init } [.base (.create (.element 2)), .setText 0 ['x']] = some 1 := by
+  decide +kernel
+
+example : ∃ a b, (Prog2.runImpl { forest := Forest.init } progX).1.env[8]? = some a ∧
+    (Prog2.runImpl { forest := Forest.init } (Prog2.ofBase progC)).1.env[6]? = some b ∧
+    (Prog2.runImpl { forest := Forest.init } (Prog2.ofBase progC)).1.forest.treeAt b =
+      (Prog2.runImpl { forest := Forest.init } progX).1.forest.treeAt a := by
+  obtain ⟨_, _, a, b, ea, eb, _, e, _⟩ := C20_programs_agree id Forest.init progX (Prog2.ofBase progC) 8 6 docC
+    C20_progX_constructs (C20_program_base_constructs _ _ _ _ C20_progC_constructs.1) C20_init_inv.1 C20_init_inv.2
+  exact ⟨a, b, ea, eb, e⟩
+
+/-- Ill-formed steps are refused at the same place: wrapping a comment that is a child of a document node
+    (xot: `InvalidOperation`), replacing a node by its own ancestor, unwrapping a parentless element that
+    has children, setting the text of an element. -/
+example :
+    Prog2.runSpec { forest := Forest.init } [.base (.create .document), .base (.create (.comment [])), .base (.append 0 1), .wrap 1 2] = none ∧
+    (Prog2.runImpl { forest := Forest.init } [.base (.create .document), .base (.create (.comment [])), .base (.append 0 1), .wrap 1 2]).2 = .err .invalidOperation ∧
+    Prog2.runSpec { forest := Forest.init } [.base (.create (.element 2)), .base (.create (.text [])), .base (.append 0 1), .replace 1 0] = none ∧
+    (Prog2.runImpl { forest := Forest.init } [.base (.create (.element 2)), .base (.create (.text [])), .base (.append 0 1), .replace 1 0]).2 = .err .invalidOperation ∧
+    Prog2.runSpec { forest := Forest.init } [.base (.create (.element 2)), .base (.create (.text [])), .base (.append 0 1), .unwrap 0] = none ∧
+    (Prog2.runImpl { forest := Forest.init } [.base (.create (.element 2)), .base (.create (.text [])), .base (.append 0 1), .unwrap 0]).2 = .err .invalidOperation ∧
+    Prog2.runSpec { forest := Forest.init } [.base (.create (.element 2)), .setText 0 ['x']] = none ∧
+    (Prog2.runImpl { forest := Forest.init } [.base (.create (.element 2)), .setText 0 ['x']]).2 = .err .invalidOperation := by
+  decide +kernel
 
 end XotModel.Props
